@@ -20,7 +20,7 @@ ASSUMPTIONS = ["term model: bare term = case-folded member of the tag's schema p
                "short-form prefix (written from the property text)",
                "composite semantics are judged only through OR/AND algebra, reorder-invariance, repeatability, non-mutation"]
 MIN_MONITOR_EVALS = {"term-model": 1500, "or-is-disjunction": 2000, "and-implies-both": 2000, "and-symmetric": 2000,
-                     "and-associative": 1000, "and-needs-distinct-tags": 100, "reorder-invariant": 2000,
+                     "and-associative": 1000, "and-regrouping": 500, "and-needs-distinct-tags": 100, "reorder-invariant": 2000,
                      "repeatable-nonmutating": 2000, "compile-or-valueerror": 2000, "unbalanced-rejected": 500,
                      "batch-agrees": 200}
 
@@ -226,6 +226,23 @@ def check_case(case, rec):
         rec.mon("and-associative")
         if l != r:
             rec.violation("'(A && B) && C' differs from 'A && (B && C)'", dict(text=case["text"], a=a, b=b, c=c))
+    # regrouping: every parenthesisation (and order) of t1 && t2 && t3 && t4 gives the same answer
+    simple = [render_term(*t) for t in case["terms"]]
+    if len(simple) >= 2:
+        for _ in range(6):
+            t = [rng.choice(simple) for _ in range(4)]
+            forms = [f"{t[0]} && {t[1]} && {t[2]} && {t[3]}", f"({t[0]} && {t[1]}) && ({t[2]} && {t[3]})",
+                     f"{t[0]} && ({t[1]} && ({t[2]} && {t[3]}))", f"(({t[0]} && {t[1]}) && {t[2]}) && {t[3]}",
+                     f"({t[2]} && {t[3]}) && ({t[1]} && {t[0]})"]
+            try:
+                got = [run(q) for q in forms]
+            except Exception as ex:  # noqa
+                rec.violation(f"search raised {type(ex).__name__}", dict(text=case["text"], query=forms[0]))
+                continue
+            rec.mon("and-regrouping")
+            if len(set(got)) != 1:
+                rec.violation("regrouping or reordering a conjunction of terms changes the answer",
+                              dict(text=case["text"], a=f"{t[0]} && {t[1]}", b=f"{t[2]} && {t[3]}", forms=forms, answers=got))
     # distinct tags: two simple terms whose only matches are one and the same tag
     terms = case["terms"]
     for i in range(len(terms)):
@@ -296,6 +313,14 @@ def run_shard(shard, rec):
         except RuntimeError:
             rec.discard()
             continue
+        # searching does not require a valid annotation: repeat some tags / groups among their siblings
+        if rng.random() < 0.4:
+            import copy as _copy
+            for _ in range(rng.randrange(1, 4)):
+                parents = [items] + [g["kids"] for g, _p in annot.walk(items) if g["t"] == "group"]
+                sibs = rng.choice(parents)
+                if sibs:
+                    sibs.insert(rng.randrange(0, len(sibs) + 1), _copy.deepcopy(rng.choice(sibs)))
         text = annot.render(items, rng)
         perm_text = annot.render(annot.permute(items, rng), rng)
         pool = term_pool(items, oracle, rng)
